@@ -233,4 +233,75 @@ theorem Acct.closeFrag {s s' : Proc} {g : Ghost} {k : Nat} (h : Acct s g k) (hfb
   simp only [Option.isSome_none, Bool.false_eq_true, if_false, if_true] at *
   omega
 
+/-! ### `process_completed_block` -/
+
+theorem modInode_eff (w : W) (i : Option Nat) (e : InoEff) :
+    modInode w i e.app = { w with inodes := applyEffs w.inodes (mkEff i e) } := by
+  cases i with
+  | none => rfl
+  | some id => rfl
+
+theorem modInode_length (w : W) (i : Option Nat) (f : Inode → Inode) : (modInode w i f).inodes.length = w.inodes.length := by
+  cases i with
+  | none => rfl
+  | some id => simp [modInode]
+
+/-- `process_completed_block` does to `W` what the writer pass does, given that the fragment table is long enough -/
+theorem completeBlock_eq (w : W) (Wl Wl' : WSt) (b : Blk) (hwr : w.wr = Wl.wr) (hcalls : w.calls = Wl.calls)
+    (hstep : wStep Wl b = .ok Wl') (hidx : isFB b = true → b.index < w.fragTbl.length) :
+    ∃ loc, Wl'.effs = Wl.effs ++ blockEffs b loc ∧
+      Wl'.sets = (if !hasFlag b.flags blkIsSparse && b.data.length != 0 && hasFlag b.flags blkFragmentBlock
+                  then Wl.sets ++ [(b.index, loc, sizeWord b)] else Wl.sets) ∧
+      completeBlock w b = .ok
+        { wr := Wl'.wr, calls := Wl'.calls,
+          fragTbl := if !hasFlag b.flags blkIsSparse && b.data.length != 0 && hasFlag b.flags blkFragmentBlock
+                     then w.fragTbl.set b.index (loc, sizeWord b) else w.fragTbl,
+          inodes := applyEffs w.inodes (blockEffs b loc) } := by
+  unfold wStep at hstep
+  unfold completeBlock
+  rw [hwr]
+  cases hw : BlockWriter.writeDataBlock Wl.wr b.chk (clearFlag b.flags blkFlagInternal) b.data with
+  | error e => rw [hw] at hstep; cases hstep
+  | ok r =>
+    obtain ⟨wr', loc⟩ := r
+    rw [hw] at hstep
+    simp only [Except.ok.injEq] at hstep
+    subst hstep
+    refine ⟨loc, rfl, rfl, ?_⟩
+    simp only [hcalls]
+    have e2 : (fun (i : Inode) => ({ i with start := loc } : Inode)) = (InoEff.start loc).app := rfl
+    unfold blockEffs recordBlock
+    by_cases hsp : hasFlag b.flags blkIsSparse = true
+    · simp only [hsp, if_true, Bool.not_true, Bool.false_and, Bool.false_eq_true, if_false]
+      have e1 : (fun (i : Inode) => ({ i with extended := true, sparse := i.sparse + b.data.length } : Inode).setBlockSize b.index 0)
+          = (InoEff.sparse b.index b.data.length).app := rfl
+      rw [e1, modInode_eff]
+      by_cases hl : hasFlag b.flags blkLastBlock = true
+      · simp only [hl, if_true]
+        rw [e2, modInode_eff, applyEffs_append]
+      · simp only [hl, Bool.false_eq_true, if_false, List.append_nil]
+    · simp only [hsp, Bool.false_eq_true, if_false, Bool.not_false, Bool.true_and]
+      by_cases hne : (b.data.length != 0) = true
+      · simp only [hne, if_true, Bool.true_and]
+        by_cases hfb : hasFlag b.flags blkFragmentBlock = true
+        · simp only [hfb, if_true, Bool.not_true, Bool.false_eq_true, if_false, List.nil_append]
+          have hlt := hidx hfb
+          rw [if_pos hlt]
+          by_cases hl : hasFlag b.flags blkLastBlock = true
+          · simp only [hl, if_true]
+            rw [e2, modInode_eff]
+          · simp only [hl, Bool.false_eq_true, if_false, applyEffs_nil]
+        · simp only [hfb, Bool.false_eq_true, if_false, Bool.not_false]
+          have e1 : (fun (i : Inode) => i.setBlockSize b.index (sizeWord b)) = (InoEff.word b.index (sizeWord b)).app := rfl
+          rw [e1, modInode_eff]
+          by_cases hl : hasFlag b.flags blkLastBlock = true
+          · simp only [hl, if_true]
+            rw [e2, modInode_eff, applyEffs_append]
+          · simp only [hl, Bool.false_eq_true, if_false, List.append_nil, if_true]
+      · simp only [hne, Bool.false_eq_true, if_false, Bool.false_and, List.nil_append]
+        by_cases hl : hasFlag b.flags blkLastBlock = true
+        · simp only [hl, if_true]
+          rw [e2, modInode_eff]
+        · simp only [hl, Bool.false_eq_true, if_false, applyEffs_nil]
+
 end Sqfs.BlockProc
